@@ -309,7 +309,7 @@ func H_solve() {
 		imp := b.imps[si]
 		imp.providerMap, imp.srcMap, errs = buildProviderMap(b.fset, b.hasher, imp)
 		vA("C11", vImplies(impBindBad, len(errs) > 0), "nested set: a binding whose concrete type is not provided by that same set is rejected")
-		vA("C10", vImplies(len(errs) > 0, impBindBad), "nested set: a set whose bindings all have their concrete type in the same set is accepted")
+		vA("C10,C11", vImplies(len(errs) > 0, impBindBad), "nested set: a set whose bindings all have their concrete type in the same set is accepted")
 		if len(errs) > 0 {
 			vA("C05,C11", imp.providerMap == nil, "buildProviderMap returns no map when it reports errors")
 			vCover("imp-binding-rejected")
@@ -321,7 +321,7 @@ func H_solve() {
 	}
 	// a binding placed directly needs its concrete type anywhere in the Build set (imports included): always true here
 	b.set.providerMap, b.set.srcMap, errs = buildProviderMap(b.fset, b.hasher, b.set)
-	vA("C10", len(errs) == 0, "a set whose sources have pairwise distinct types and co-located bindings is accepted by buildProviderMap")
+	vA("C10,C11", len(errs) == 0, "a set whose sources have pairwise distinct types and co-located bindings is accepted by buildProviderMap")
 
 	calls, errs := solve(b.fset, vType(g.out), b.given, b.set)
 
